@@ -257,6 +257,10 @@ func C06(c *mon.Ctx) {
 			for k, v := range nested {
 				orig[k] = v
 			}
+			if mode >= 5 && r.P(0.6) {
+				// values nested inside the context marked as ignored
+				markNestedIgnores(r, t, orig, 0.4)
+			}
 		}
 		used := map[string]bool{}
 		for _, v := range []model.Val{t.P, t.A, t.R, t.Ctx} {
@@ -379,7 +383,10 @@ func c06run(w *mon.W, r *gen.R, i int, mp *model.Policy, mm *gen.Mentions, base 
 			ivals := [][]model.Val{}
 			for _, in := range ignNames {
 				o := orig["~"+in]
-				if in == "context" {
+				if strings.HasPrefix(in, "ctx#") {
+					// an ignored value nested inside the context record
+					ivals = append(ivals, []model.Val{o, m.PickVal(r), gen.RandVal(r, 1)})
+				} else if in == "context" {
 					ivals = append(ivals, []model.Val{o, model.Rec(), contextFor(r, &m)})
 				} else {
 					ivals = append(ivals, []model.Val{o, m.PickEnt(r), gen.RandUID(r)})
@@ -393,20 +400,27 @@ func c06run(w *mon.W, r *gen.R, i int, mp *model.Policy, mm *gen.Mentions, base 
 				e2 := *cenvM
 				code2 := iv
 				desc := strings.Join(parts, ", ")
+				var nestedVals []model.Val
 				for j, in := range ignNames {
 					v := ivals[j][code2%3]
 					code2 /= 3
-					switch in {
-					case "principal":
+					switch {
+					case in == "principal":
 						e2.P = v
-					case "action":
+					case in == "action":
 						e2.A = v
-					case "resource":
+					case in == "resource":
 						e2.R = v
+					case strings.HasPrefix(in, "ctx#"):
+						nestedVals = append(nestedVals, v) // ctx#0, ctx#1, .. are sorted, i.e. in slot order
 					default:
 						e2.Ctx = v
 					}
 					desc += fmt.Sprintf(", ignored %s:=%s", in, v)
+				}
+				if len(nestedVals) > 0 {
+					idx := 0
+					e2.Ctx = substIgnores(e2.Ctx, nestedVals, &idx)
 				}
 				if e2.P.K != model.KEntity || e2.A.K != model.KEntity || e2.R.K != model.KEntity || e2.Ctx.K != model.KRecord {
 					continue
@@ -491,6 +505,17 @@ func c06directed(c *mon.Ctx) {
 		{"a in b", func(a, b *model.Expr) *model.Expr { return model.Bin(model.OIn, a, b) }},
 		{"a in [b, X]", func(a, b *model.Expr) *model.Expr { return model.Bin(model.OIn, a, model.SetE(b, lx)) }},
 		{"a is U in b", func(a, b *model.Expr) *model.Expr { return model.IsIn(a, "U", b) }},
+		// a composite of the context that holds an unknown and/or an ignored value, used as a whole
+		{"context.rec == {k: X, j: X} (|| a == b)", func(a, b *model.Expr) *model.Expr {
+			whole := model.Bin(model.OEq, model.Access(ctx, "rec"), model.Lit(model.Rec("k", model.Ent("U", "a"), "j", model.Ent("U", "a"))))
+			return model.Bin(model.OOr, whole, model.Bin(model.OEq, a, b))
+		}},
+		{"[context.rec].contains({k: X, j: X})", func(a, b *model.Expr) *model.Expr {
+			return model.Bin(model.OContains, model.SetE(model.Access(ctx, "rec")), model.Lit(model.Rec("k", model.Ent("U", "a"), "j", model.Ent("U", "a"))))
+		}},
+		{"context.rec == {k: a, j: b}", func(a, b *model.Expr) *model.Expr {
+			return model.Bin(model.OEq, model.Access(ctx, "rec"), model.RecE([]string{"k", "j"}, []*model.Expr{a, b}))
+		}},
 		// branches that are projections of a composite which still holds an unknown
 		{"(if a == X then context.rec else context.rec).k == b", func(a, b *model.Expr) *model.Expr {
 			rec := model.Access(ctx, "rec")
@@ -588,7 +613,14 @@ func c06directed(c *mon.Ctx) {
 		}
 		setIgnored := func(e *model.Expr) bool {
 			if e.Op != model.OVar {
-				return false // only whole request parts can be ignored (property statement)
+				// a value nested in the context (context.j and context.rec.j) is ignored: slots
+				// ctx#0 and ctx#1 in key-sorted traversal order of the template context
+				ctxJ = mignore()
+				for _, name := range []string{"ctx#0", "ctx#1"} {
+					t.Ignored[name] = true
+					orig["~"+name] = X
+				}
+				return true
 			}
 			t.Ignored[e.S] = true
 			orig["~"+e.S] = X
